@@ -202,6 +202,22 @@ class Models:
         classes = ci.mro() if inherited else [ci]
         for c in classes:
             for st in c.node.body:
+                if isinstance(st, ast.Assign) and len(st.targets) == 1 and isinstance(st.targets[0], ast.Name) and isinstance(st.value, ast.Call) \
+                        and isinstance(st.value.func, ast.Call) and len(st.value.args) == 1 and isinstance(st.value.args[0], ast.Name):
+                    # name = model_validator(mode="after")(module_level_function): the decorator applied by hand
+                    dn = dotted_name(st.value.func.func)
+                    short = dn.split(".")[-1] if dn else None
+                    if short in ("field_validator", "model_validator"):
+                        defs_ = [x for x in c.module.defs.get(st.value.args[0].id, []) if isinstance(x, ast.FunctionDef)]
+                        if defs_:
+                            call = st.value.func
+                            mode = "after" if short == "field_validator" else "?"
+                            for k in call.keywords:
+                                if k.arg == "mode" and isinstance(k.value, ast.Constant):
+                                    mode = k.value.value
+                            fields = tuple(a.value for a in call.args if isinstance(a, ast.Constant)) if short == "field_validator" else ()
+                            out.append(ValidatorInfo(st.targets[0].id, "field" if short == "field_validator" else "model", mode, fields, defs_[-1], c))
+                    continue
                 if not isinstance(st, ast.FunctionDef):
                     continue
                 for pos_, d in enumerate(st.decorator_list):
